@@ -166,6 +166,8 @@ def gen_config(rng, case, allow_irresolute=True):
         perm = list(range(m))
         rng.shuffle(perm)
         tb = ["perm", perm]          # perm[rank] = key
+    if rng.random() < 0.08:
+        tb = "refuse"
     case["tb"] = tb
     case["binary"] = rng.choice([None, None, True, False])
     case["resolute"] = True
@@ -184,6 +186,8 @@ def gen_config(rng, case, allow_irresolute=True):
         if inc <= 0:
             inc = Fraction(1)
         case["inc"] = pb.qs(inc)
+    if case["tb"] == "refuse":
+        case["inc"] = None
     enum = list(range(m))
     rng.shuffle(enum)
     case["enum"] = enum
@@ -433,6 +437,66 @@ def gen_near(rng):
     return _finish(rng, case)
 
 
+def gen_free(rng, allow_irresolute=True):
+    """Several SUPPORTED zero-cost projects (they are selected unconditionally: no auction, no tie-breaking
+    between them) next to priced projects with or without a genuine rho tie; every ballot type; mostly
+    refuse_tie_breaking (raises exactly when some round has two or more tied candidates)."""
+    from fractions import Fraction as Fr
+    nfree = rng.choice([2, 2, 3])
+    npriced = rng.choice([0, 1, 2, 2, 3])
+    m = nfree + npriced
+    n = rng.choice([1, 2, 3, 4, 5])
+    tie = npriced >= 2 and rng.random() < 0.4
+    if tie:
+        base = Fr(rng.choice([1, 2, 3]))
+        pc = [base] * npriced
+    else:
+        pc = rng.sample([Fr(1), Fr(2), Fr(3), Fr(5), Fr(7, 2), Fr(11, 3), Fr(13, 5)], npriced)
+    costs = [Fr(0)] * nfree + pc
+    kind = rng.choice(["approval", "approval", "cardinal", "cumulative", "ordinal"])
+    ballots = []
+    for v in range(n):
+        if tie or rng.random() < 0.5:
+            S = list(range(m)) if rng.random() < 0.7 else sorted(rng.sample(range(m), rng.randrange(1, m + 1)))
+        else:
+            S = sorted(rng.sample(range(m), rng.randrange(0, m + 1)))
+        if v == 0:
+            S = sorted(set(S) | set(range(nfree)))          # every free project has a supporter
+        if kind == "approval":
+            ballots.append(S)
+        elif kind in ("cardinal", "cumulative"):
+            ballots.append({str(j): pb.qs(1 if tie else rng.choice([1, 2, 3, 5])) for j in S})
+        else:
+            S2 = list(S)
+            rng.shuffle(S2)
+            if v == 0:                                       # Borda: the last position scores 0
+                S2 = [j for j in S2 if j < nfree] + [j for j in S2 if j >= nfree]
+                if len(S2) == nfree:
+                    S2 = S2 + [j for j in range(m) if j not in S2][:1]
+            ballots.append(S2)
+    tot = sum(pc, Fr(0))
+    B = rng.choice([tot, tot / 2 + Fr(1, 3), tot + 1, Fr(n)]) if tot else Fr(rng.choice([0, 1, 2]))
+    perm = list(range(m))
+    rng.shuffle(perm)
+    costs2 = [None] * m
+    for j in range(m):
+        costs2[perm[j]] = costs[j]
+    ren = lambda b: ({str(perm[int(k)]): v for k, v in b.items()} if isinstance(b, dict)
+                     else ([perm[j] for j in b] if kind == "ordinal" else sorted(perm[j] for j in b)))
+    sat = {"approval": ["Cardinality_Sat", "Relative_Cardinality_Sat"],
+           "cardinal": ["Additive_Cardinal_Sat", "Cardinality_Sat"],
+           "cumulative": ["Additive_Cardinal_Sat", "Cardinality_Sat"],
+           "ordinal": ["Additive_Borda_Sat", "Cardinality_Sat"]}[kind]
+    case = {"costs": [pb.qs(c) for c in costs2], "budget": pb.qs(B), "ballot": kind,
+            "ballots": [ren(b) for b in ballots], "sat": rng.choice(sat), "multi": rng.random() < 0.4,
+            "tb": "refuse" if rng.random() < 0.7 else rng.choice(["lexico", "min_cost", "max_cost"]),
+            "stream": "free"}
+    case["resolute"] = not (allow_irresolute and rng.random() < 0.25)
+    if case["tb"] != "refuse" and rng.random() < 0.2:
+        case["inc"] = pb.qs(rng.choice([Fr(1, 2), Fr(1), Fr(1, 3)]))
+    return _finish(rng, case)
+
+
 # ----------------------------------------------------------------------------------------------
 # building the library objects
 # ----------------------------------------------------------------------------------------------
@@ -465,6 +529,8 @@ def build(case):
         rule = T.min_cost_tie_breaking
     elif tb == "max_cost":
         rule = T.max_cost_tie_breaking
+    elif tb == "refuse":
+        rule = T.refuse_tie_breaking
     else:
         perm = {pb.pname(i): k for i, k in enumerate(tb[1])}
         rule = T.TieBreakingRule(lambda inst_, prof_, p: perm[p.name])
@@ -479,7 +545,7 @@ def tb_keys(case):
     seen as a difference from model and spec."""
     tb = case["tb"]
     m = len(case["costs"])
-    if tb == "lexico":
+    if tb in ("lexico", "refuse"):      # refuse: the key is never used (the rule raises when consulted)
         return [pb.qs(j) for j in range(m)]
     if tb == "app_score":
         bm = case.get("ballot_mults") or [1] * len(case["ballots"])
